@@ -27,7 +27,9 @@ Qs == {"s0", "s1"}
 Sg == {"a", "b"}
 Gm == {"X"}
 Eps == "eps"
-Pool == {<<p, a, u, q, v>> : p \in Qs, a \in Sg \cup {Eps}, u \in Gm \cup {Eps}, q \in Qs, v \in Gm \cup {Eps}}
+(* moves: stack-free, push, or pop (no replace moves: 36 moves) *)
+Pool == {<<p, a, uv[1], q, uv[2]>> : p \in Qs, a \in Sg \cup {Eps}, q \in Qs,
+                                      uv \in {<<Eps, Eps>>, <<Eps, "X">>, <<"X", Eps>>}}
 Mk(T, F) == [Q |-> Qs, S |-> Sg, G |-> Gm, T |-> T, q0 |-> "s0", F |-> F, eps |-> Eps]
 C0 == {<<"s0", <<>>>>}
 
@@ -45,7 +47,7 @@ Pick1 == /\ stage = 0 /\ stage' = 1
 Clo(PP, C) == EpsClose(PP, C, Cap)
 Pairs(PP, WW) == {<<c, a>> : c \in {x[1] : x \in WW}, a \in PP.S}
 Pick2 == /\ stage = 1
-         /\ \E X \in {X \in SUBSET Pool : Cardinality(X) < MaxMoves} : P' = Mk(P.T \cup X, P.F)
+         /\ \E t1 \in Pool, t2 \in Pool : P' = Mk(P.T \cup {t1, t2}, P.F)
          /\ LET R == Clo(P', C0)
             IN IF Cardinality(R) > Cap THEN stage' = 9 /\ UNCHANGED <<W, words, pend>>     \* Skip: outside the universe
                ELSE /\ stage' = 2
